@@ -81,6 +81,12 @@ CHECKS = {
  'C21': (['asan'], 'event-log monitor vs schoolbook coefficient dictionaries over Python ints / Fractions; divides judged by the boolean and quotient*divisor == dividend; UExprPoly through expand + eq',
          'Pairs of UIntPoly/URatPoly with coefficients sized around powers of two (Kronecker substitution stress), zero and constant operands, sparse and dense; ~14 operations per pair.',
          'Coefficients up to 300 bits, degree up to 30; UExprPoly compared through the symbolic layer.', 'DESIGN.md 3/C21'),
+ 'C22': (['asan'], 'event-log monitor vs schoolbook monomial dictionaries over the sorted union of the variables (Python ints); MExprPoly through expand + eq',
+         'Pairs of MIntPoly over variable sets in every relation (equal, overlapping, disjoint, empty, subset) incl. zero and constant polynomials; result variables and dictionaries are compared.',
+         'Up to 4 symbols, 8 terms, exponents <= 5; MExprPoly compared through the symbolic layer.', 'DESIGN.md 3/C22'),
+ 'C24': (['asan'], 'event-log monitor vs exact Gaussian-rational linear algebra in the monitor: determinants, inverses, RREF, char_poly and structural operations compared exactly; factorisations judged by defining relations; solvers by A*x == b; run with assertions recording but not throwing (release semantics) under ASan',
+         'Matrices up to 6x6 / 5x7 in families aimed at pivoting, singularity, symmetry and positive definiteness; ~25 operations per square matrix, ~20 per rectangular one.',
+         'Non-pivoting algorithms may decline visibly (exception or nan/zoo entries); QR and Cholesky judged numerically at 50 digits.', 'DESIGN.md 3/C24'),
 }
 
 def main():
